@@ -45,6 +45,8 @@ struct World {
     shadow: Vec<u32>,
     tshadow: Vec<u32>,
     batch_count: usize,
+    /// an out-of-range call (which panicked) has happened in this history
+    oob_seen: bool,
     fin: Option<Vec<u32>>,
     cap: usize,
     out: Vec<String>,
@@ -256,6 +258,7 @@ impl World {
 
     fn do_poll(&mut self, k: usize) -> (String, char) {
         let cap = self.cap;
+        let oob_seen = self.oob_seen;
         let shadow = self.shadow.clone();
         let fin = self.fin.clone();
         let nout = self.out.len();
@@ -367,15 +370,19 @@ impl World {
                 s.last_pending = true;
                 s.woken = false;
                 s.sent_since_pending = 0;
+                // C17: an out-of-range call panics without notifying anyone - in a history with such a
+                // call, nobody receives a diff that is not accounted for or not applicable
+                let oob_bad = oob_seen && (!s.app_ok || !count_ok || !replica_ok);
                 (
                     format!(
-                        "P ok:replica={} ok:app={} ok:stepwise={} ok:count={} ok:lagreset={} ok:wake={}",
+                        "P ok:replica={} ok:app={} ok:stepwise={} ok:count={} ok:lagreset={} ok:wake={}{}",
                         b2s(replica_ok),
                         b2s(s.app_ok),
                         b2s(step_ok),
                         b2s(count_ok),
                         b2s(s.lagreset_ok),
-                        b2s(s.wake_ok)
+                        b2s(s.wake_ok),
+                        if oob_bad { " ok:oobsilent=0" } else { "" }
                     ),
                     'P',
                 )
@@ -522,6 +529,9 @@ fn run_txn<'a>(ob: &mut ObservableVector<u32>, w: &mut World, ops: &mut std::sli
                 mutate!(txn, name, arg)
             };
             let r = r.unwrap_or_else(|| "PANIC".into());
+            if r == "PANIC" {
+                w.oob_seen = true;
+            }
             if r != "PANIC" {
                 if let Some((v2, _, eff)) = &spec {
                     w.tshadow = v2.clone();
@@ -641,6 +651,7 @@ pub fn run_line(line: &str, out: &mut String) {
         shadow: vec![],
         tshadow: vec![],
         batch_count: 0,
+        oob_seen: false,
         fin: None,
         cap,
         out: vec![],
@@ -665,6 +676,9 @@ pub fn run_line(line: &str, out: &mut String) {
                 mutate!(o, name, arg)
             };
             let r = r.unwrap_or_else(|| "PANIC".into());
+            if r == "PANIC" {
+                w.oob_seen = true;
+            }
             if r != "PANIC" {
                 if let Some((v2, _, eff)) = &spec {
                     w.shadow = v2.clone();
